@@ -264,7 +264,7 @@ def build(ctx, g, cls, n, free_at=None):
                 else:
                     recs.append(zs.ZoneStatusData(i % 16, zs.ZonePowerState.ON, False, zs.ZoneControlMethod.TEMPERATURE, True,
                                                   zs.SensorBatteryStatus.NORMAL, 24.3, 100, 25.0))
-            return C(zs.ZoneStatusMessage(recs)), ("ZoneStatusRequest" if n == 0 else None)
+            return C(zs.ZoneStatusMessage(recs)), None      # AT5: the sub-header (record length) tells an empty report from a request
         if cls == "ZoneStatusRequest":
             return C(zs.ZoneStatusRequest()), None
         if cls == "AcControl":
@@ -284,7 +284,7 @@ def build(ctx, g, cls, n, free_at=None):
                                                 b.flag(), b.grid(0, 250, 100), b.grid(0, 2000, -500), b.int(0, 65535)))
                 else:
                     recs.append(st.AcStatusData(i % 16, st.AcPowerState.ON, st.AcMode.HEAT, st.AcFanSpeed.LOW, False, False, False, True, 22.0, 23.0, 0))
-            return C(st.AcStatusMessage(recs)), ("AcStatusRequest" if n == 0 else None)
+            return C(st.AcStatusMessage(recs)), None      # AT5: the sub-header (record length) tells an empty report from a request
         if cls == "AcStatusRequest":
             return C(st.AcStatusRequest()), None
         if cls in ("AcTimerControl", "AcTimerStatus"):
@@ -296,7 +296,7 @@ def build(ctx, g, cls, n, free_at=None):
                     recs.append(ts.AcTimerStatusData(i % 16, ts.AcTimerState(False, 7, 31), ts.AcTimerState(True, 0, 0)))
             if cls == "AcTimerControl":
                 return C(tc.AcTimerControlMessage(recs)), ("AcTimerControlEmpty" if n == 0 else None)
-            return C(ts.AcTimerStatusMessage(recs)), ("AcTimerStatusRequest" if n == 0 else None)
+            return C(ts.AcTimerStatusMessage(recs)), None      # AT5: the sub-header (record length) tells an empty report from a request
         if cls == "AcTimerStatusRequest":
             return C(ts.AcTimerStatusRequest()), None
         if cls == "ErrorInfo":
